@@ -73,11 +73,11 @@ def sync_gosum():
         pass
 
 
-def go_build(target, out, tags="verif"):
+def go_build(target, out, tags="verif", race=False):
     """build ./cmd/<target> of the harness module against /repo's current working tree"""
     os.makedirs(BIN, exist_ok=True)
     sync_gosum()
-    cmd = ["go", "build", "-tags", tags, "-o", out, "./cmd/" + target]
+    cmd = ["go", "build"] + (["-race"] if race else []) + ["-tags", tags, "-o", out, "./cmd/" + target]
     return run(cmd, cwd=HARNESS, env=goenv(), timeout=600)
 
 
